@@ -200,6 +200,7 @@ Definition inflight (s : st) : list rec :=
   | PIdle => []
   | PCheck r | PFinish r | PPick r | PZero r | PStart r | PTime r | PWord r | PBump r
   | PCopy r | PBumpPl r => [r]
+  | PDark => []
   end.
 
 Record Inv (single : bool) (recs : list rec) (s : st) : Prop := {
@@ -210,7 +211,7 @@ Record Inv (single : bool) (recs : list rec) (s : st) : Prop := {
   i_part : partial_ok single s;
   i_shl : shl_after (chan s) (shl s) = announced s;
   i_content : exists bs, Matches (done s) bs /\ content s = bs ++ extra single s;
-  i_recs : done s ++ inflight s ++ todo s = recs
+  i_recs : exists rest, done s ++ inflight s ++ todo s ++ rest = recs /\ (pc s <> PDark -> rest = [])
 }.
 
 Lemma body_app l a b : body l (a ++ b) = body l a ++ body l b.
@@ -246,7 +247,7 @@ Proof.
   - exact I.
   - reflexivity.
   - exists []. split; [constructor|destruct single; reflexivity].
-  - reflexivity.
+  - exists []. split; [rewrite app_nil_r; reflexivity | reflexivity].
 Qed.
 
 (* ------------------------------------------------------------------ recorder steps *)
@@ -414,13 +415,19 @@ Ltac open_inv HI Epc :=
   unfold cur_ok, partial_ok, announced, extra, inflight in Hcur, Hpart, Hshl, Hcont, Hrecs;
   rewrite Epc in Hcur, Hpart, Hshl, Hcont, Hrecs.
 Ltac close_fields := unfold cur_ok, partial_ok, announced, extra, inflight; simp.
+(* the i_recs field: same records, the new pc is not PDark *)
+Ltac keep_recs H :=
+  let rest := fresh "rest" in let Hr := fresh "Hr" in let Hd := fresh "Hd" in
+  destruct H as [rest [Hr Hd]]; exists rest; split;
+  [ first [ exact Hr | rewrite <- Hr; rewrite <- ?app_assoc; reflexivity ]
+  | intros _; apply Hd; discriminate ].
 
 Lemma p_idle single recs cap s : pc s = PIdle -> Inv single recs s -> Inv single recs (pstep single cap s).
 Proof.
   intros Epc HI. unfold pstep. rewrite Epc. destruct (todo s) as [|r t] eqn:Et; [exact HI|].
   open_inv HI Epc.
   constructor; close_fields; try assumption; try exact I.
-  rewrite Et in Hrecs. exact Hrecs.
+  rewrite Et in Hrecs. keep_recs Hrecs.
 Qed.
 
 Lemma p_check single recs cap s r : pc s = PCheck r -> Inv single recs s -> Inv single recs (pstep single cap s).
@@ -428,9 +435,9 @@ Proof.
   intros Epc HI. unfold pstep. rewrite Epc. open_inv HI Epc.
   destruct (curr s) as [c|] eqn:Ec.
   - destruct (cap <? b_size (getb c (bufs s)) + rsize r);
-      constructor; close_fields; try assumption; try exact I.
+      constructor; close_fields; try assumption; try exact I; try (keep_recs Hrecs).
     exists c. exact Ec.
-  - constructor; close_fields; try assumption; try exact I.
+  - constructor; close_fields; try assumption; try exact I; try (keep_recs Hrecs).
 Qed.
 
 Lemma p_finish single recs cap s r : pc s = PFinish r -> Inv single recs s -> Inv single recs (pstep single cap s).
@@ -441,9 +448,9 @@ Proof.
     assert (Hp : pend s' = pend s).
     { unfold pend, others, curl, s'. simp. rewrite Ec, ends_app. cbn. rewrite app_nil_r, <- app_assoc. reflexivity. }
     assert (Hc : content s' = content s) by (unfold content; rewrite Hp; reflexivity).
-    constructor; try (rewrite Hp); try (rewrite Hc); subst s'; close_fields; try assumption; try reflexivity.
+    constructor; try (rewrite Hp); try (rewrite Hc); subst s'; close_fields; try assumption; try reflexivity; try (keep_recs Hrecs).
     rewrite shl_after_app, Hshl. unfold curl. rewrite Ec. cbn. rewrite Nat.eqb_refl. reflexivity.
-  - constructor; close_fields; try assumption; try exact I.
+  - constructor; close_fields; try assumption; try exact I; try (keep_recs Hrecs).
 Qed.
 
 Lemma p_start single recs cap s r : pc s = PStart r -> Inv single recs s -> Inv single recs (pstep single cap s).
@@ -454,7 +461,7 @@ Proof.
   assert (Hp : pend s' = pend s).
   { unfold pend, others, curl, s'. simp. rewrite ends_app. cbn. rewrite app_nil_r. reflexivity. }
   assert (Hc : content s' = content s) by (unfold content; rewrite Hp; reflexivity).
-  constructor; try (rewrite Hp); try (rewrite Hc); subst s'; close_fields; try assumption; try exact I.
+  constructor; try (rewrite Hp); try (rewrite Hc); subst s'; close_fields; try assumption; try exact I; try (keep_recs Hrecs).
   - exists c. exact Ec.
   - rewrite shl_after_app, Hshl. unfold curl, cur_buf. simp. rewrite Ec. reflexivity.
 Qed.
@@ -472,7 +479,7 @@ Proof.
   set (f := fun b => set_data (write_at (b_size b) (le64 (r_time r)) (b_data b)) b).
   destruct (on_cur_core single recs s c f HI Ec (fun b => eq_refl)) as [H1 [H2 [H3 [Hg Hc]]]].
   destruct (cur_facts single recs s c HI Ec) as [_ [_ [_ [_ [_ Hcs]]]]].
-  constructor; close_fields; try assumption; try exact I.
+  constructor; close_fields; try assumption; try exact I; try (keep_recs Hrecs).
   - exists c. exact Ec.
   - replace (cur_buf _) with c by (unfold cur_buf; cbn; rewrite Ec; reflexivity).
     change (bufs (with_pc _ (on_cur f s))) with (bufs (on_cur f s)). rewrite Hg. unfold f. cbn [b_size b_data b_flag set_data set_size].
@@ -490,7 +497,7 @@ Proof.
   destruct (on_cur_core single recs s c f HI Ec (fun b => eq_refl)) as [H1 [H2 [H3 [Hg Hc]]]].
   destruct (cur_facts single recs s c HI Ec) as [_ [_ [_ [_ [_ Hcs]]]]].
   rewrite (cur_buf_eq s c Ec) in Hpart.
-  constructor; close_fields; try assumption; try exact I.
+  constructor; close_fields; try assumption; try exact I; try (keep_recs Hrecs).
   - exists c. exact Ec.
   - replace (cur_buf _) with c by (unfold cur_buf; cbn; rewrite Ec; reflexivity).
     change (bufs (with_pc _ (on_cur f s))) with (bufs (on_cur f s)). rewrite Hg. unfold f. cbn [b_size b_data b_flag set_data set_size].
@@ -510,7 +517,7 @@ Proof.
   destruct (on_cur_core single recs s c f HI Ec (fun b => eq_refl)) as [H1 [H2 [H3 [Hg Hc]]]].
   destruct (cur_facts single recs s c HI Ec) as [_ [_ [_ [_ [_ Hcs]]]]].
   rewrite (cur_buf_eq s c Ec) in Hpart.
-  constructor; close_fields; try assumption; try exact I.
+  constructor; close_fields; try assumption; try exact I; try (keep_recs Hrecs).
   - exists c. exact Ec.
   - replace (cur_buf _) with c by (unfold cur_buf; cbn; rewrite Ec; reflexivity).
     change (bufs (with_pc _ (on_cur f s))) with (bufs (on_cur f s)). rewrite Hg. unfold f.
@@ -546,22 +553,21 @@ Proof.
   destruct (has_pl r) eqn:Epl.
   - destruct single.
     + (* repaired code: nothing is counted yet *)
-      constructor; close_fields; try assumption; try exact I.
+      constructor; close_fields; try assumption; try exact I; try (keep_recs Hrecs).
       * exists c. exact Ec.
       * replace (cur_buf _) with c by (unfold cur_buf; cbn; rewrite Ec; reflexivity). exact Hpart.
       * exists bs. split; [exact Hm|]. change (content (with_pc (PCopy r) s)) with (content s).
         rewrite Hcb'. symmetry. apply app_nil_r.
-    + constructor; close_fields; try assumption; try exact I.
+    + constructor; close_fields; try assumption; try exact I; try (keep_recs Hrecs).
       * exists c. exact Ec.
       * exists bs. split; [exact Hm|].
         change (content (with_pc (PCopy r) (on_cur f s))) with (content (on_cur f s)).
         rewrite Hc', Hcb'. reflexivity.
-  - constructor; close_fields; try assumption; try exact I.
+  - constructor; close_fields; try assumption; try exact I; try (keep_recs Hrecs).
     + exists (bs ++ hdr r). split.
       * apply Matches_snoc; [exact Hm|]. exists []. rewrite (has_pl_false r Epl). split; reflexivity.
       * change (content (with_pc PIdle (with_done (done s ++ [r]) (on_cur f s)))) with (content (on_cur f s)).
         rewrite Hc', Hcb'. destruct single; symmetry; apply app_nil_r.
-    + rewrite <- Hrecs, <- app_assoc. reflexivity.
 Qed.
 
 Lemma p_bumppl single recs cap s r : pc s = PBumpPl r -> Inv single recs s -> Inv single recs (pstep single cap s).
@@ -585,26 +591,24 @@ Proof.
       replace (align8 n) with (n + (align8 n - n)) at 1 by (pose proof (align8_ge n); lia).
       rewrite read_at_app, Hp, <- !app_assoc. reflexivity. }
     rewrite app_nil_r in Hcb.
-    constructor; close_fields; try assumption; try exact I.
+    constructor; close_fields; try assumption; try exact I; try (keep_recs Hrecs).
     + exists (bs ++ hdr r ++ r_pl r ++ pad). split.
       * apply Matches_snoc; [exact Hm|]. exists pad. split; [reflexivity|].
         unfold pad. rewrite read_at_length. reflexivity.
       * change (content (with_pc PIdle (with_done (done s ++ [r]) (on_cur f s)))) with (content (on_cur f s)).
         rewrite Hc', Hcb, app_nil_r. reflexivity.
-    + rewrite <- Hrecs, <- app_assoc. reflexivity.
   - fold n in Hpart.
     set (pad := read_at (b_size b + n) (align8 n - n) (b_data b)).
     assert (Hc' : content (on_cur f s) = content s ++ r_pl r ++ pad).
     { rewrite Hc, Hcs. unfold f. rewrite Nat.add_0_r, committed_grow.
       replace (align8 n) with (n + (align8 n - n)) at 1 by (pose proof (align8_ge n); lia).
       rewrite read_at_app, Hpart, app_assoc. reflexivity. }
-    constructor; close_fields; try assumption; try exact I.
+    constructor; close_fields; try assumption; try exact I; try (keep_recs Hrecs).
     + exists (bs ++ hdr r ++ r_pl r ++ pad). split.
       * apply Matches_snoc; [exact Hm|]. exists pad. split; [reflexivity|].
         unfold pad. rewrite read_at_length. reflexivity.
       * change (content (with_pc PIdle (with_done (done s ++ [r]) (on_cur f s)))) with (content (on_cur f s)).
         rewrite Hc', Hcb, app_nil_r, <- !app_assoc. reflexivity.
-    + rewrite <- Hrecs, <- app_assoc. reflexivity.
 Qed.
 
 Lemma NoDup_snoc {A} (l : list A) x : NoDup l -> ~ In x l -> NoDup (l ++ [x]).
@@ -662,7 +666,7 @@ Proof.
       change (pend (on_cur _ _)) with (pend s). rewrite Hl1. fold l1.
       apply body_ext. intros i Hi. apply S1. exact Hi.
     - rewrite Hc, Hcs. f_equal. unfold committed. cbn. rewrite Hpart. reflexivity. }
-  constructor; try (rewrite Hc'); subst s'; close_fields; try assumption; try exact I.
+  constructor; try (rewrite Hc'); subst s'; close_fields; try assumption; try exact I; try (keep_recs Hrecs).
   - intros i Hi. destruct (S1 i Hi) as [Sa Sb]. split; [exact Sa|]. rewrite Sb. apply H2. exact Hi.
   - exists c. exact Ec.
   - replace (cur_buf _) with c by (unfold cur_buf; cbn; rewrite Ec; reflexivity).
@@ -707,7 +711,7 @@ Proof.
     rewrite (committed_size0 (g (getb i l))) by (unfold g; cbn; apply Hib).
     rewrite app_nil_r, body_upd_notin by exact Hni.
     apply body_ext. intros j Hj. apply Hjl. intro; subst; contradiction. }
-  constructor; try (rewrite Hc'); try (rewrite Hp'); subst s'; close_fields; try assumption; try exact I.
+  constructor; try (rewrite Hc'); try (rewrite Hp'); subst s'; close_fields; try assumption; try exact I; try (keep_recs Hrecs).
   - apply NoDup_snoc; [rewrite <- Hpe; exact Hnd | exact Hni].
   - intros j Hj. rewrite upd_length. apply in_app_or in Hj. destruct Hj as [Hj|[<-|[]]].
     + assert (Hne : i <> j) by (intro; subst; contradiction).
@@ -736,6 +740,62 @@ Proof.
   - eapply p_bump; eassumption.
   - eapply p_copy; eassumption.
   - eapply p_bumppl; eassumption.
+  - unfold pstep. rewrite Epc. exact HI.
+Qed.
+
+(* the i_recs field when the thread goes dark: everything not yet stored is dropped *)
+Ltac dark_recs H :=
+  let rest := fresh "rest" in let Hr := fresh "Hr" in let Hd := fresh "Hd" in
+  destruct H as [rest [Hr Hd]]; eexists; split;
+  [ rewrite <- Hr; cbn [app]; reflexivity
+  | let Hne := fresh "Hne" in intro Hne; exfalso; apply Hne; reflexivity ].
+
+(* the pipe is closed and the current buffer is full: REC_END is lost, the buffer stays announced *)
+Lemma dark_finish single recs s r :
+  pc s = PFinish r -> Inv single recs s -> Inv single recs (with_pc PDark (with_todo [] s)).
+Proof.
+  intros Epc HI. open_inv HI Epc.
+  constructor; close_fields; try assumption; try exact I; try (destruct single; exact Hcont); try (cbn [app]; dark_recs Hrecs).
+Qed.
+
+(* the pipe is closed before REC_START of a new (empty) buffer went out: the buffer stays unknown *)
+Lemma dark_start single recs s r :
+  pc s = PStart r -> Inv single recs s -> Inv single recs (with_pc PDark (with_todo [] (with_curr None s))).
+Proof.
+  intros Epc HI. open_inv HI Epc. destruct Hcur as [c Ec].
+  destruct (cur_facts single recs s c HI Ec) as [Hp [Hni [Hndo [Hl [Hfc Hcs]]]]].
+  rewrite (cur_buf_eq s c Ec) in Hpart.
+  set (s' := with_pc PDark (with_todo [] (with_curr None s))).
+  assert (Hp' : pend s' = others s) by (unfold pend, curl, s'; simp; apply app_nil_r).
+  assert (Hc' : content s' = content s).
+  { unfold content at 1. rewrite Hp'. rewrite Hcs. unfold pre, s'. simp.
+    rewrite (committed_size0 _ Hpart), app_nil_r. reflexivity. }
+  constructor; try (rewrite Hp'); try (rewrite Hc'); subst s'; close_fields; try assumption; try exact I; try (destruct single; exact Hcont); try (cbn [app]; dark_recs Hrecs).
+  all: try (intros i Hi; apply Hrec; rewrite Hp; apply in_or_app; left; exact Hi).
+  all: try (unfold curl; simp; exact Hshl).
+Qed.
+
+Lemma pstep_closed_inv single recs cap s : Inv single recs s -> Inv single recs (pstep_closed single cap s).
+Proof.
+  intro HI. unfold pstep_closed. destruct (pc s) eqn:Epc; try (apply pstep_inv; exact HI).
+  - eapply dark_finish; eassumption.
+  - eapply dark_start; eassumption.
+Qed.
+
+(* mtd_dtor between two hook calls *)
+Lemma dstep_inv single recs closed s : Inv single recs s -> Inv single recs (dstep closed s).
+Proof.
+  intro HI. unfold dstep. destruct (pc s) eqn:Epc; try exact HI.
+  open_inv HI Epc. destruct closed.
+  - constructor; close_fields; try assumption; try exact I; try (destruct single; exact Hcont); try (cbn [app]; dark_recs Hrecs).
+  - unfold pend_thread. destruct (curr s) as [c|] eqn:Ec.
+    + set (s' := with_pc PDark (with_todo [] (with_curr None (with_chan (chan s ++ [MEnd c]) s)))).
+      assert (Hp : pend s' = pend s).
+      { unfold pend, others, curl, s'. simp. rewrite Ec, ends_app. cbn. rewrite app_nil_r, <- app_assoc. reflexivity. }
+      assert (Hc : content s' = content s) by (unfold content; rewrite Hp; reflexivity).
+      constructor; try (rewrite Hp); try (rewrite Hc); subst s'; close_fields; try assumption; try exact I; try (destruct single; exact Hcont); try (cbn [app]; dark_recs Hrecs).
+      * rewrite shl_after_app, Hshl. unfold curl. simp. rewrite Ec. cbn. rewrite Nat.eqb_refl. reflexivity.
+    + constructor; close_fields; try assumption; try exact I; try (destruct single; exact Hcont); try (cbn [app]; dark_recs Hrecs).
 Qed.
 
 Lemma step_inv single recs cap l s : Inv single recs s -> Inv single recs (step single cap l s).
@@ -744,6 +804,9 @@ Proof.
   - apply pstep_inv. exact HI.
   - apply rstep_inv. exact HI.
   - apply wstep_inv. exact HI.
+  - apply pstep_closed_inv. exact HI.
+  - apply dstep_inv. exact HI.
+  - apply dstep_inv. exact HI.
 Qed.
 
 Lemma run_inv single recs cap sched s : Inv single recs s -> Inv single recs (run single cap sched s).
@@ -849,8 +912,8 @@ Theorem prefix_general single cap recs sched :
 Proof.
   intro s. pose proof (run_inv single recs cap sched (init recs) (init_inv single recs)) as HI. fold s in HI.
   rewrite (finish_file single recs s HI).
-  destruct HI as [_ _ _ _ _ _ [bs [Hm Hc]] Hrecs].
-  exists bs, (inflight s ++ todo s). split; [exact Hm|]. split; [exact Hc|]. symmetry. exact Hrecs.
+  destruct HI as [_ _ _ _ _ _ [bs [Hm Hc]] [rest0 [Hrecs _]]].
+  exists bs, (inflight s ++ todo s ++ rest0). split; [exact Hm|]. split; [exact Hc|]. symmetry. exact Hrecs.
 Qed.
 
 Lemma extra_window single s : in_window single s = false -> extra single s = [].
@@ -895,10 +958,10 @@ Theorem window_exact cap recs sched :
 Proof.
   intros s Hw. pose proof (run_inv false recs cap sched (init recs) (init_inv false recs)) as HI. fold s in HI.
   rewrite (finish_file false recs s HI).
-  destruct HI as [_ _ _ _ _ _ [bs [Hm Hc]] Hrecs].
+  destruct HI as [_ _ _ _ _ _ [bs [Hm Hc]] [rest0 [Hrecs _]]].
   unfold in_window in Hw. unfold extra in Hc. unfold inflight in Hrecs. cbn [negb andb] in Hw.
-  destruct (pc s) as [| | | | | | | | |r|r] eqn:Epc; try discriminate;
-    exists r, bs, (todo s); (split; [auto|]); (split; [exact Hm|]); (split; [exact Hc|]); symmetry; exact Hrecs.
+  destruct (pc s) as [| | | | | | | | |r|r|] eqn:Epc; try discriminate;
+    exists r, bs, (todo s ++ rest0); (split; [auto|]); (split; [exact Hm|]); (split; [exact Hc|]); symmetry; exact Hrecs.
 Qed.
 
 (* a complete run (every record stored): the file holds all records *)
@@ -909,7 +972,8 @@ Proof.
   intros s Hpc Ht. pose proof (run_inv single recs cap sched (init recs) (init_inv single recs)) as HI. fold s in HI.
   destruct (prefix_outside_window single cap recs sched) as [Hm _].
   { unfold in_window. fold s. rewrite Hpc. apply andb_false_r. }
-  fold s in Hm. destruct HI as [_ _ _ _ _ _ _ Hrecs]. unfold inflight in Hrecs. rewrite Hpc, Ht in Hrecs.
+  fold s in Hm. destruct HI as [_ _ _ _ _ _ _ [rest0 [Hrecs Hd]]]. unfold inflight in Hrecs. rewrite Hpc, Ht in Hrecs.
+  rewrite Hd in Hrecs by (rewrite Hpc; discriminate).
   cbn in Hrecs. rewrite app_nil_r in Hrecs. rewrite <- Hrecs. exact Hm.
 Qed.
 
